@@ -9,6 +9,18 @@ import subprocess
 V = os.path.dirname(os.path.dirname(os.path.abspath(__file__)))
 reg = json.load(open(os.path.join(V, "lib", "registry.json")))
 props = [json.loads(l)["id"] for l in open(os.path.join(V, "properties.jsonl"))]
+# per-property fragments checks/<ID>.registry.json (written last by whoever builds the check)
+import glob
+for f in sorted(glob.glob(os.path.join(V, "checks", "C*.registry.json"))):
+    pid = os.path.basename(f).split(".")[0]
+    frag = json.load(open(f))
+    if "not_applicable" in frag:
+        reg["not_applicable"][pid] = frag["not_applicable"]
+        reg["checks"].pop(pid, None)
+    else:
+        reg["checks"][pid] = frag
+for e in reg["engines"]:
+    e["serves_properties"] = sorted(reg["checks"])
 
 checks = []
 for pid in props:
